@@ -16,7 +16,9 @@
         multiset),
      3. the recorded batches are the model's batch_run of the recorded puts,
      4. every put finds its references on the disk-so-far (orderedb = every prefix closed),
-     5. the dirty set after the commit is the model's uncache;
+     5. the dirty set after the commit is the model's uncache,
+     6. if a first attempt was ended by an injected Write error: the puts it left on disk found their
+        references on the disk-so-far, and the hypotheses still hold afterwards (the model's OFail);
    and at the end that the final disk is closed. *)
 From Coq Require Import String.
 From stdpp Require Import gmap.
@@ -28,6 +30,7 @@ Definition T := TNode.
 Record commit := C {
   c_root : N;
   c_cache : list (N * (N * (list N * list N)));   (* hash, blob size, (tracked = childs(), refs of the blob) *)
+  c_failed : list N;    (* puts that reached the disk in a first attempt ended by a Write error *)
   c_tree : tree;
   c_puts : list N;
   c_batches : list (list N);
@@ -43,10 +46,13 @@ Definition check_commit (limit : N) (d : gmap N (list N)) (cm : commit) : bool *
   let c : gmap N dnode := list_to_map (map (λ e, (e.1, DNode e.2.2.1 e.2.2.2)) (c_cache cm)) in
   let sz : gmap N N := list_to_map (map (λ e, (e.1, e.2.1)) (c_cache cm)) in
   let bsize h := default 0%N (sz !! h) in
+  let s0 := Store d c in
+  let d := put_all c d (c_failed cm) in       (* OFail: the puts are on disk, nothing was uncached *)
   let s := Store d c in
   let puts := c_puts cm in
   let ok :=
     bool_decide (NoDup (map fst (c_cache cm)))
+    && bool_decide (cache_closed s0) && bool_decide (consistent s0) && orderedb c (disk s0) (c_failed cm)
     && bool_decide (cache_closed s) && bool_decide (consistent s)
     && tree_okb c (c_tree cm) && bool_decide (troot (c_tree cm) = c_root cm)
     && bool_decide (flatten (c_tree cm) = puts)
